@@ -1,6 +1,6 @@
 SPECIFICATION Spec
 CONSTANTS
   StrictA = FALSE
-INVARIANTS NoLedgerWrite Persisted CrashRestores
+INVARIANTS NoLedgerWrite Persisted CrashRestores CacheCoherent
 POSTCONDITION TraceAccepted
 CHECK_DEADLOCK FALSE
